@@ -704,6 +704,22 @@ def _sort_then_use(fd, log=None):
                 nxt.value = st.value
                 del stmts[i]
                 continue
+            # `x = D.pop(k, None)` + `if x is not None: U[new] = x` (x used nowhere else) is `if k in D: U[new] = D.pop(k)` -- the stored values are objects
+            if isinstance(st, ast.Assign) and len(st.targets) == 1 and isinstance(st.targets[0], ast.Name) and isinstance(st.value, ast.Call) and \
+                    isinstance(st.value.func, ast.Attribute) and st.value.func.attr == 'pop' and len(st.value.args) == 2 and \
+                    isinstance(st.value.args[1], ast.Constant) and st.value.args[1].value is None and isinstance(nxt, ast.If) and not nxt.orelse and \
+                    isinstance(nxt.test, ast.Compare) and len(nxt.test.ops) == 1 and isinstance(nxt.test.ops[0], ast.IsNot) and \
+                    isinstance(nxt.test.left, ast.Name) and nxt.test.left.id == st.targets[0].id and \
+                    isinstance(nxt.test.comparators[0], ast.Constant) and nxt.test.comparators[0].value is None and len(nxt.body) == 1 and \
+                    isinstance(nxt.body[0], ast.Assign) and isinstance(nxt.body[0].targets[0], ast.Subscript) and isinstance(nxt.body[0].value, ast.Name) and \
+                    nxt.body[0].value.id == st.targets[0].id and \
+                    sum(1 for n in _walk_no_defs(fd.body) if isinstance(n, ast.Name) and n.id == st.targets[0].id) == 3:
+                D, K = st.value.func.value, st.value.args[0]
+                nxt.test = ast.copy_location(ast.Compare(left=astcopy(K), ops=[ast.In()], comparators=[astcopy(D)]), nxt.test)
+                nxt.body[0].value = ast.copy_location(ast.Call(func=ast.Attribute(value=D, attr='pop', ctx=ast.Load()), args=[K], keywords=[]), st.value)
+                ast.fix_missing_locations(nxt)
+                del stmts[i]
+                continue
             for fld in ('body', 'orelse', 'finalbody'):
                 L = getattr(st, fld, None)
                 if isinstance(L, list) and L and isinstance(L[0], ast.stmt) and not isinstance(st, (ast.FunctionDef, ast.ClassDef)):
@@ -715,6 +731,87 @@ def _sort_then_use(fd, log=None):
                 L = getattr(st, fld, None)
                 if isinstance(L, list) and L and isinstance(L[0], ast.stmt) and not isinstance(st, (ast.FunctionDef, ast.ClassDef)):
                     rewrite(L)
+    rewrite(fd.body)
+
+
+def _next_over_table(fd, log=None):
+    """`T = ((k0, a0, b0), (k1, a1, b1), ...)` (a literal, bound once, read once) and `X = next((E(row) for row in T if C(row)), D)`: a first-match
+    lookup in a literal table.  Written as the if / elif chain over the rows with the default in the final else; `row[i]` / `row[i:]` of a literal row
+    are the elements themselves."""
+    sto = _stores(fd.body)
+
+    class Sub(ast.NodeTransformer):
+        def __init__(self, var, row):
+            self.var, self.row = var, row
+
+        def visit_Subscript(self, n):
+            self.generic_visit(n)
+            if isinstance(n.value, ast.Name) and n.value.id == self.var:
+                sl = n.slice
+                if isinstance(sl, ast.Constant) and isinstance(sl.value, int) and -len(self.row.elts) <= sl.value < len(self.row.elts):
+                    return astcopy(self.row.elts[sl.value])
+                if isinstance(sl, ast.Slice) and sl.step is None and all(b is None or (isinstance(b, ast.Constant) and isinstance(b.value, int)) for b in (sl.lower, sl.upper)):
+                    lo = sl.lower.value if sl.lower is not None else None
+                    hi = sl.upper.value if sl.upper is not None else None
+                    return ast.copy_location(ast.Tuple(elts=[astcopy(e) for e in self.row.elts[lo:hi]], ctx=ast.Load()), n)
+            return n
+
+    def rewrite(stmts):
+        for i, st in enumerate(list(stmts)):
+            for fld in ('body', 'orelse', 'finalbody'):
+                L = getattr(st, fld, None)
+                if isinstance(L, list) and L and isinstance(L[0], ast.stmt) and not isinstance(st, (ast.FunctionDef, ast.ClassDef)):
+                    rewrite(L)
+            if not (isinstance(st, ast.Assign) and len(st.targets) == 1 and isinstance(st.value, ast.Call) and isinstance(st.value.func, ast.Name) and
+                    st.value.func.id == 'next' and len(st.value.args) == 2 and not st.value.keywords and isinstance(st.value.args[0], ast.GeneratorExp)):
+                continue
+            ge, dflt = st.value.args
+            if len(ge.generators) != 1 or ge.generators[0].is_async or not isinstance(ge.generators[0].target, ast.Name) or not isinstance(ge.generators[0].iter, ast.Name):
+                continue
+            g0 = ge.generators[0]
+            tn, var = g0.iter.id, g0.target.id
+            if sto.get(tn) != 1:
+                continue
+            j = next((k for k in range(i - 1, -1, -1) if isinstance(stmts[k], ast.Assign) and len(stmts[k].targets) == 1 and
+                      isinstance(stmts[k].targets[0], ast.Name) and stmts[k].targets[0].id == tn), None)
+            if j is None:
+                continue
+            tab = stmts[j].value
+            if not (isinstance(tab, (ast.Tuple, ast.List)) and tab.elts and all(isinstance(r, (ast.Tuple, ast.List)) for r in tab.elts)):
+                continue
+            if sum(1 for n in _walk_no_defs(fd.body) if isinstance(n, ast.Name) and n.id == tn) != 2:
+                continue
+            # the rows' expressions are evaluated when the table is built: only names, attributes and constants may be moved into the chain
+            if not all(isinstance(x, (ast.Name, ast.Attribute, ast.Constant, ast.Tuple, ast.List, ast.Load)) for r in tab.elts for x in ast.walk(r)):
+                continue
+            # nothing between the table and the lookup rebinds what the rows mention
+            mention = {x.id for r in tab.elts for x in ast.walk(r) if isinstance(x, ast.Name)}
+            if any(isinstance(x, ast.Name) and isinstance(x.ctx, ast.Store) and x.id in mention for s_ in stmts[j + 1:i] for x in ast.walk(s_)):
+                continue
+            chain = None
+            ok = True
+            for r in reversed(tab.elts):
+                cond = ast.BoolOp(op=ast.And(), values=[Sub(var, r).visit(astcopy(c)) for c in g0.ifs]) if len(g0.ifs) > 1 else \
+                    (Sub(var, r).visit(astcopy(g0.ifs[0])) if g0.ifs else ast.Constant(value=True))
+                val = Sub(var, r).visit(astcopy(ge.elt))
+                if any(isinstance(x, ast.Name) and x.id == var for e_ in (cond, val) for x in ast.walk(e_)):
+                    ok = False
+                    break
+                asg = ast.Assign(targets=[astcopy(t) for t in st.targets], value=val)
+                els = [chain] if chain is not None else [ast.Assign(targets=[astcopy(t) for t in st.targets], value=dflt)]
+                chain = ast.If(test=cond, body=[asg], orelse=els)
+            if not ok:
+                continue
+            ast.copy_location(chain, st)
+            ast.fix_missing_locations(chain)
+            for n in ast.walk(chain):
+                if not hasattr(n, 'lineno') and isinstance(n, (ast.stmt, ast.expr)):
+                    ast.copy_location(n, st)
+            stmts[i] = chain
+            del stmts[j]
+            if log is not None:
+                log.append('# first-match lookup in the literal table %s written as an if / elif chain in %s' % (tn, fd.name))
+            return rewrite(stmts)
     rewrite(fd.body)
 
 
@@ -1257,6 +1354,43 @@ class Inliner:
                         i += 2
                 i += 1
         join_of_generator(fd.body)
+
+        # `[E(x) for x in self._gen()]` with _gen a private generator helper that keeps state between its yields (so it cannot be written into the
+        # comprehension): the list built by a loop -- `acc = []; for x in self._gen(): acc.append(E(x))` -- whose helper is then inlined like any loop
+        def comp_of_generator(stmts):
+            i = 0
+            while i < len(stmts):
+                st = stmts[i]
+                for fld in ('body', 'orelse', 'finalbody'):
+                    L = getattr(st, fld, None)
+                    if isinstance(L, list) and L and isinstance(L[0], ast.stmt) and not isinstance(st, (ast.FunctionDef, ast.ClassDef)):
+                        comp_of_generator(L)
+                v = getattr(st, 'value', None) if isinstance(st, (ast.Return, ast.Assign)) else None
+                if isinstance(v, ast.ListComp) and len(v.generators) == 1 and not v.generators[0].is_async and isinstance(v.generators[0].iter, ast.Call):
+                    r = resolve(v.generators[0].iter)
+                    hb = r[0].fd.body if r else []
+                    if r and not r[0].other_decorators and any(isinstance(x, ast.Yield) for x in _walk_no_defs(hb)) and \
+                            not any(isinstance(x, ast.YieldFrom) for x in _walk_no_defs(hb)) and \
+                            any(isinstance(x, (ast.Assign, ast.AugAssign)) for x in _walk_no_defs(hb)):
+                        k = 1
+                        while 'acc_%d' % k in taken:
+                            k += 1
+                        acc = 'acc_%d' % k
+                        taken.add(acc)
+                        g0 = v.generators[0]
+                        app = ast.Expr(value=ast.Call(func=ast.Attribute(value=ast.Name(id=acc, ctx=ast.Load()), attr='append', ctx=ast.Load()), args=[v.elt], keywords=[]))
+                        inner = [app]
+                        if g0.ifs:
+                            inner = [ast.If(test=g0.ifs[0] if len(g0.ifs) == 1 else ast.BoolOp(op=ast.And(), values=list(g0.ifs)), body=inner, orelse=[])]
+                        init = ast.copy_location(ast.Assign(targets=[ast.Name(id=acc, ctx=ast.Store())], value=ast.List(elts=[], ctx=ast.Load()), type_comment=None), st)
+                        loop = ast.copy_location(ast.For(target=g0.target, iter=g0.iter, body=inner, orelse=[], type_comment=None), st)
+                        st.value = ast.copy_location(ast.Name(id=acc, ctx=ast.Load()), v)
+                        for x in (init, loop):
+                            ast.fix_missing_locations(x)
+                        stmts[i:i] = [init, loop]
+                        i += 2
+                i += 1
+        comp_of_generator(fd.body)
 
         class ExprInline(ast.NodeTransformer):
             def visit_Call(self, n):
@@ -1884,6 +2018,7 @@ class Inliner:
                 _copy_in_copy_out(fd)
                 _extend_as_loop(fd)
                 _get_or_create(fd)
+                _next_over_table(fd, self.log)
                 _genexp_loop(fd, self.log)
                 _sort_then_use(fd, self.log)
                 _filter_then_loop(fd)
@@ -2285,6 +2420,28 @@ def _extend_as_loop(fd):
             comp, L = st.value.args[0], st.value.func.value.id
         elif isinstance(st, ast.AugAssign) and isinstance(st.op, ast.Add) and isinstance(st.target, ast.Name) and isinstance(st.value, ast.ListComp):
             comp, L = st.value, st.target.id
+        # `D.update((k, v) for ... )` / `D.update({k: v for ...})` as a statement: `for ...: D[k] = v`  (D a name or an attribute of a name)
+        upd = None
+        if isinstance(st, ast.Expr) and isinstance(st.value, ast.Call) and isinstance(st.value.func, ast.Attribute) and st.value.func.attr == 'update' and \
+                len(st.value.args) == 1 and not st.value.keywords and isinstance(st.value.func.value, (ast.Name, ast.Attribute)):
+            a0 = st.value.args[0]
+            if isinstance(a0, (ast.GeneratorExp, ast.ListComp)) and isinstance(a0.elt, ast.Tuple) and len(a0.elt.elts) == 2:
+                upd = (a0, a0.elt.elts[0], a0.elt.elts[1])
+            elif isinstance(a0, ast.DictComp):
+                upd = (a0, a0.key, a0.value)
+        if upd is not None and not any(g.is_async for g in upd[0].generators):
+            D = st.value.func.value
+            dn = ast.unparse(D)
+            if not any(ast.unparse(n) == dn for n in ast.walk(upd[0]) if isinstance(n, (ast.Name, ast.Attribute))):
+                body = [ast.Assign(targets=[ast.Subscript(value=D, slice=upd[1], ctx=ast.Store())], value=upd[2], type_comment=None)]
+                for g in reversed(upd[0].generators):
+                    if g.ifs:
+                        test = g.ifs[0] if len(g.ifs) == 1 else ast.BoolOp(op=ast.And(), values=list(g.ifs))
+                        body = [ast.If(test=test, body=body, orelse=[])]
+                    body = [ast.For(target=g.target, iter=g.iter, body=body, orelse=[], type_comment=None)]
+                loop = ast.copy_location(body[0], st)
+                ast.fix_missing_locations(loop)
+                return loop
         if comp is None or any(isinstance(n, ast.Name) and n.id == L for n in ast.walk(comp)) or any(g.is_async for g in comp.generators):
             return None
         body = [ast.Expr(value=ast.Call(func=ast.Attribute(value=ast.Name(id=L, ctx=ast.Load()), attr='append', ctx=ast.Load()), args=[comp.elt], keywords=[]))]
